@@ -346,3 +346,100 @@ Proof.
     + cbn. exact Hend.
     + constructor; [exact He|exact Hlk].
 Qed.
+
+(** * completeness *)
+Definition NoEarlyDst (dst : N) (uses : list seguse) : Prop :=
+  forall u1 u u2 a b, uses = u1 ++ u :: u2 -> u2 <> [] -> ValidUse u a b -> b <> JAS dst.
+
+Lemma jn_as v x : jn v = JAS x -> v = VAS x.
+Proof. destruct v; cbn; intros E; inversion E; reflexivity. Qed.
+Lemma jn_link v a b c d : jn v = JLink a b c d -> v = VPeer a b c d.
+Proof. destruct v; cbn; intros E; inversion E; reflexivity. Qed.
+
+Lemma use_of_edge_of_use Hid c u :
+  wf_segment (u_seg u) -> EdgeOfUse Hid c u -> use_of_edge c = u.
+Proof.
+  intros Hwf (Hs & Hi & Hp & leaf & ae & Hleaf & Hae & Hv). unfold use_of_edge. rewrite Hs, Hi, Hp. cbn [iseg_of is_kind is_seg].
+  assert (Hdir : (if edge_cons_dir c then Along else Against) = u_dir u).
+  { unfold edge_cons_dir. rewrite Hs. cbn [iseg_of is_seg]. rewrite Hleaf.
+    destruct (u_peer u) as [pi|].
+    - destruct Hv as (_ & p & _ & Hv). destruct (u_dir u); destruct Hv as [_ Hd].
+      + apply jn_as in Hd. rewrite Hd. cbn. rewrite N.eqb_refl. reflexivity.
+      + apply jn_link in Hd. rewrite Hd. reflexivity.
+    - destruct Hv as (Hc & Hn & Hv). destruct (u_dir u); destruct Hv as [_ Hd]; apply jn_as in Hd; rewrite Hd; cbn.
+      + rewrite N.eqb_refl. reflexivity.
+      + assert (Hnl : S (u_from u) <> seg_len (u_seg u)).
+        { destruct (u_kind u); [rewrite (Hc eq_refl); destruct Hwf as (Hl & _); unfold seg_len; lia|auto]. }
+        assert (Hne : ae_ia ae <> leaf).
+        { destruct Hwf as (Hlen & Hnd & _). destruct (entries_split_last _ _ Hleaf) as (es' & le & Hes & Hia).
+          unfold seg_len in *. rewrite Hes in *. pose proof (nth_error_lt _ _ _ Hae) as Hl. rewrite app_length in *. cbn [length] in *.
+          rewrite nth_error_app1 in Hae by lia. rewrite map_app in Hnd. cbn [map] in Hnd.
+          apply NoDup_remove_2 in Hnd. rewrite app_nil_r in Hnd. intros Heq. apply Hnd.
+          apply in_map_iff. exists ae. split; [congruence|eapply nth_error_In; eauto]. }
+        apply N.eqb_neq in Hne. rewrite Hne. reflexivity. }
+  rewrite Hdir. destruct u; reflexivity.
+Qed.
+
+Lemma Forall2_length' {A B} (R : A -> B -> Prop) l1 l2 : Forall2 R l1 l2 -> length l1 = length l2.
+Proof. induction 1; cbn; congruence. Qed.
+
+Lemma combine_complete_lemma Hid Hfp ord_v ord_e src dst cores non_cores out uses :
+  (forall v l, Permutation (ord_v v l) l) -> (forall v w l, Permutation (ord_e v w l) l) ->
+  wf_input cores non_cores ->
+  combine_paths Hid Hfp ord_v ord_e src dst cores non_cores = Ok out -> src <> dst ->
+  ValidCombination cores non_cores src dst uses -> NoEarlyDst dst uses ->
+  exists l,
+    Forall2 (EdgeOfUse Hid) l uses
+    /\ forall p, sol_path Hfp (mkSol l (VAS dst) (edges_weight l)) = Ok (Some p) ->
+         Forall2 SegOfUse (sp_segs p) uses
+         /\ (has_loops p = Ok false ->
+             exists q, In q out /\ sp_fp q = sp_fp p /\ path_expiration p <= path_expiration q).
+Proof.
+  intros Hv He Hwf Hout Hne (Hkinds & Hfrom & Hch) Hearly.
+  destruct (combine_stages _ _ _ _ _ _ _ _ _ Hout) as [[E _]|(g & cand & _ & Hg & _ & _ & _ & _)];
+    [apply N.eqb_eq in E; contradiction|].
+  destruct (chained_edges Hid cores non_cores g Hwf Hg uses (JAS src) (JAS dst) Hfrom Hch) as (l & H2 & Hc & Hend & Hlk).
+  cbn [vx] in Hc, Hend. exists l. split; [exact H2|]. intros p Hsp.
+  pose proof (Forall2_length' _ _ _ H2) as Hlen.
+  assert (Hwfu : Forall (fun u => wf_segment (u_seg u)) uses).
+  { apply Forall_forall. intros u Hu. rewrite Forall_forall in Hfrom. specialize (Hfrom u Hu).
+    unfold wf_input in Hwf. rewrite Forall_forall in Hwf. apply Hwf. unfold from_input in Hfrom.
+    apply in_or_app. destruct (u_kind u); auto. }
+  assert (Huses : map use_of_edge l = uses).
+  { clear -H2 Hwfu. induction H2 as [|c u l r Hcu H2 IH]; [reflexivity|]. inversion Hwfu; subst. cbn [map]. f_equal; [|auto].
+    eapply use_of_edge_of_use; eauto. }
+  split.
+  - destruct (sol_path_ends _ _ _ Hsp) as (st & f & la & Hst & _ & _ & _ & _ & _ & Hsegs). cbn [so_edges] in Hst.
+    assert (Hidx : Forall (fun e => (e_idx (se_edge e) < seg_len (is_seg (se_seg e)))%nat) l).
+    { clear -H2. induction H2 as [|c u l r Hcu H2 IH]; constructor; [|exact IH].
+      destruct Hcu as (Hs & Hi & _ & leaf & ae & _ & Hae & _). rewrite Hs, Hi. cbn. eapply nth_error_lt; eauto. }
+    destruct (edges_fold_uses l _ _ Hidx Hst) as (ds & Hds & Hall). cbn [ps_segs app] in Hds.
+    rewrite Hsegs, Hds, <- Huses. exact Hall.
+  - intros Hl. eapply (combine_complete_graph Hid Hfp ord_v ord_e src dst cores non_cores out g l p); eauto.
+    unfold GraphChain. split; [|split; [exact Hc|split; [exact Hend|split; [|split; [exact Hlk|]]]]].
+    + rewrite Hlen. unfold kinds_allowed in Hkinds. destruct uses as [|a [|b [|c [|d r]]]]; cbn in Hkinds |- *; try lia; destruct Hkinds.
+    + (* kinds *)
+      unfold kinds_allowed in Hkinds. rewrite <- Huses in Hkinds. unfold kinds_ok.
+      destruct l as [|a [|b [|c [|d r]]]]; cbn [map use_of_edge u_kind] in Hkinds; auto.
+      * unfold is_non_core, is_core. destruct Hkinds as [-> | ->]; auto.
+      * unfold is_non_core, is_core. destruct Hkinds as (-> & -> & ->). auto.
+    + intros l1 c l2 El Hl2 Hd. subst l. apply Forall2_app_inv_l in H2 as (u1 & u2 & H21 & H22 & ->).
+      inversion H22 as [|? u ? u2' Hcu H23]; subst.
+      destruct Hcu as (_ & _ & _ & Hvu). rewrite Hd in Hvu. cbn [jn] in Hvu.
+      refine (Hearly u1 u u2' _ _ eq_refl _ Hvu eq_refl).
+      intros ->. inversion H23; subst. apply Hl2; reflexivity.
+Qed.
+
+(** the decidable test for [wf_peers] is sound *)
+From Sci Require Import Combine.Obs.
+Lemma nodup3b_sound l : nodup3b l = true -> NoDup l.
+Proof.
+  induction l as [|x r IH]; cbn [nodup3b]; intros H; [constructor|]. apply andb_true_iff in H as [H1 H2].
+  constructor; [|auto]. intros Hin. apply negb_true_iff in H1.
+  assert (existsb (peer_key3_eqb x) r = true); [|congruence].
+  apply existsb_exists. exists x. split; [exact Hin|]. destruct x as [[a b] c]. cbn. rewrite !N.eqb_refl. reflexivity.
+Qed.
+Lemma wf_peersb_sound s : wf_peersb s = true -> wf_peers s.
+Proof.
+  unfold wf_peersb, wf_peers. intros H ae Hae. rewrite forallb_forall in H. apply nodup3b_sound. exact (H ae Hae).
+Qed.
